@@ -8,6 +8,8 @@ returns the raw result.  Seedless families are dicts {"name", "members": [(label
 
 Data come from vmc.values (deterministic tables; ``off`` = VERIF_SEED rotates them).  No RNG here.
 """
+import functools as _functools
+
 import numpy as np
 
 from vmc import values as V
@@ -191,6 +193,13 @@ def seeded_entries():
         lambda off: (lambda rs, M=V.gauss_ints((6, 5), off + 6): S.randomized_svd(M, 2, n_oversamples=1, random_state=rs)))
     add("svd_interface", "method-randomized_svd-complex-input", 0.4,
         lambda off: (lambda rs, M=V.gauss_ints((5, 7), off + 4): S.svd_interface(M, method="randomized_svd", n_eigenvecs=2, random_state=rs)))
+    # the SVD given as a callable (the function object / a functools.partial of it) instead of its name
+    add("svd_interface", "method-callable-randomized_svd", 0.4,
+        lambda off: (lambda rs, M=V.generic((6, 5), off + 6): S.svd_interface(M, method=S.randomized_svd, n_eigenvecs=2, random_state=rs)))
+    add("tucker", "init-svd-callable-randomized_svd", 2.0,
+        lambda off: (lambda rs, T=_t3(off): D.tucker(T, [2, 2, 2], init="svd", svd=S.randomized_svd, n_iter_max=1, tol=0, random_state=rs)))
+    add("parafac", "init-svd-partial-randomized_svd", 4.0,
+        lambda off: (lambda rs, T=_t3(off): D.parafac(T, 2, init="svd", svd=_functools.partial(S.randomized_svd, n_oversamples=1), n_iter_max=1, tol=0, random_state=rs)))
     add("randomized_svd", "large-matrix", 6.0,
         lambda off: (lambda rs, M=_big(off): S.randomized_svd(M, 3, random_state=rs)))
     add("randomized_svd", "transposed-branch", 0.3,
